@@ -489,7 +489,7 @@ def isPossibleTypeC (s : SchemaD) (cache : PCache) (abstract obj : String) : Boo
 
 def CacheOk (s : SchemaD) (cache : PCache) : Prop := ∀ kv ∈ cache, kv.2 = possibleTypes s kv.1
 
-private theorem cache_step (s : SchemaD) (cache : PCache) (n : String) (h : CacheOk s cache) :
+theorem cache_step (s : SchemaD) (cache : PCache) (n : String) (h : CacheOk s cache) :
     (getPossibleTypesC s cache n).1 = possibleTypes s n ∧ CacheOk s (getPossibleTypesC s cache n).2 := by
   unfold getPossibleTypesC
   cases hf : cache.find? (·.1 == n) with
@@ -511,7 +511,7 @@ def afterHistory (s : SchemaD) : PCache → List String → PCache
   | c, [] => c
   | c, n :: rest => afterHistory s (getPossibleTypesC s c n).2 rest
 
-private theorem afterHistory_ok (s : SchemaD) (c : PCache) (hist : List String) (h : CacheOk s c) : CacheOk s (afterHistory s c hist) := by
+theorem afterHistory_ok (s : SchemaD) (c : PCache) (hist : List String) (h : CacheOk s c) : CacheOk s (afterHistory s c hist) := by
   induction hist generalizing c with
   | nil => exact h
   | cons n rest ih => exact ih _ (cache_step s c n h).2
